@@ -20,7 +20,7 @@ func genLazyCase(w *world) {
 	pool := mkPool(r, w.o)
 	vals := mkVals(r, w.o)
 	for i := r.Range(4, 22); i > 0; i-- {
-		switch r.Weighted([]int{60, 12, 14, 5, 5, 4}) {
+		switch r.Weighted([]int{60, 12, 14, 5, 5, 4, 5}) {
 		case 0:
 			w.put(pick(r, pool), pick(r, vals))
 		case 1:
@@ -33,6 +33,8 @@ func genLazyCase(w *world) {
 			w.collapse(r.Intn(5))
 		case 5:
 			w.get(pick(r, pool))
+		case 6:
+			genFind(w, pool) // loads nodes in place; the lazy model follows
 		}
 	}
 	w.root()
@@ -115,7 +117,7 @@ func genLazyCase(w *world) {
 			if len(k) > mpt.MaxKeyLength {
 				k = k[:mpt.MaxKeyLength]
 			}
-			switch r.Weighted([]int{22, 30, 18, 18, 6, 6}) {
+			switch r.Weighted([]int{22, 30, 18, 18, 6, 6, 8}) {
 			case 0:
 				if len(k) > 0 {
 					v := pick(r, vals)
@@ -147,8 +149,18 @@ func genLazyCase(w *world) {
 				w.get(k)
 			case 4:
 				w.root()
-			default:
+			case 5:
 				w.proof(k) // GetProof through HashNodes, some of them missing
+			default: // Find through HashNodes, some of them missing: error or result, and what got loaded
+				pf := k
+				if len(pf) > 0 {
+					pf = pf[:r.Range(0, len(pf))]
+				}
+				var from []byte
+				if r.Bool() {
+					from = genStart(r, pool, pf)
+				}
+				w.find(pf, from, []int{0, 1, 2, 1000}[r.Intn(4)])
 			}
 		}
 		w.root()
